@@ -448,3 +448,175 @@ Proof.
   rewrite crun_app. apply live_rows_immutable_from; [apply ci_reachable, H1 | exact H2|].
   intros n. rewrite <- crun_app. apply Hl.
 Qed.
+
+(** * A whole batch of the policy satisfies the guards *)
+
+Lemma batch_ok_level ix k b : batch_ok ix k b = true -> level_span <= b_out b.
+Proof.
+  intros H. destruct (batch_ok_spec _ _ _ H) as (_ & Hne & _ & _ & Hl).
+  destruct (b_inputs b) as [|i0 r]; [contradiction|]. specialize (Hl i0 (or_introl eq_refl)).
+  unfold level_of, level_span in *. lia.
+Qed.
+
+Lemma batch_hist_ok k s b :
+  WF s -> BatchPre k s b -> (forall i, In i (b_inputs b) -> ~ In i (map jseg (jobs s))) ->
+  hist_ok s (batch_labels s b) = true.
+Proof.
+  intros W P Hj. pose proof (batch_ok_level _ _ _ (bp_ok _ _ _ P)) as Hl. apply N.leb_le in Hl.
+  assert (Hd : has_dirb (dirs (cstep s (CWrite b))) (b_out b) = true).
+  { apply has_dirb_true. eexists. split; [cbn [cstep cp_write dirs]; apply in_app_iff; right; left; reflexivity|].
+    reflexivity. }
+  unfold batch_labels. cbn [hist_ok cstep_ok]. rewrite Hl. cbn [andb].
+  apply andb_true_iff. split.
+  { apply negb_true_iff, has_dirb_false, (bp_fresh _ _ _ P). }
+  apply andb_true_iff. split; [exact Hd|]. apply andb_true_iff. split; [exact Hd|].
+  rewrite andb_true_r. apply forallb_forall. intros i Hi.
+  change (live (cstep (cstep (cstep s (CWrite b)) (CIndex b)) (CLive b (drained (index s) b))))
+    with (live (run_batch s b)).
+  change (index (cstep (cstep (cstep s (CWrite b)) (CIndex b)) (CLive b (drained (index s) b))))
+    with (index (run_batch s b)).
+  change (jobs (cstep (cstep (cstep s (CWrite b)) (CIndex b)) (CLive b (drained (index s) b))))
+    with (jobs s).
+  pose proof (ob_out_not_dr k s b W P) as Ho.
+  apply andb_true_iff. split; [apply andb_true_iff; split|]; apply negb_true_iff, memb_false.
+  - intros H. apply in_live_after in H as [->|[_ H]]; contradiction.
+  - intros H. apply (index_after_labels _ _ _ (w_nd _ W)) in H as [->|[_ H]]; contradiction.
+  - apply Hj, (ob_dr_input s b), Hi.
+Qed.
+
+(** * Known findings and non-vacuity *)
+
+Lemma memb_true_in x l : memb x l = true -> In x l.
+Proof. apply memb_true. Qed.
+Lemma memb_false_notin x l : memb x l = false -> ~ In x l.
+Proof. apply memb_false. Qed.
+Lemma has_dirb_false_not ds i : has_dirb ds i = false -> ~ has_dir ds i.
+Proof. intros H Hd. apply has_dirb_true in Hd. congruence. Qed.
+
+Ltac vm_conj :=
+  repeat (match goal with |- _ /\ _ => split; [vm_compute; reflexivity|] end); vm_compute; reflexivity.
+
+(** every batch written in the history is one the k-way policy can produce on the index of that moment *)
+Fixpoint policy_ok (k : N) (s : shard) (ls : list clabel) : bool :=
+  match ls with
+  | [] => true
+  | l :: r => match l with CWrite b => batch_ok (index s) k b | _ => true end && policy_ok k (cstep s l) r
+  end.
+
+Definition whole (b : batch) (dr : list N) : list clabel := [CWrite b; CIndex b; CLive b dr; CReclaim dr].
+
+(** one event of type 0 stored with capacity 1 and flushed completely *)
+Definition seg1 (n : N) : list clabel := map CBase ([LStore (mkEv n 0 0)] ++ flush_all [0]).
+
+(** Known finding SegmentLabelReused.  Capacity 1, k = 2, one type.  Segments 0..3;
+    round 1: [0;1] -> 10000, [2;3] -> 10001; round 2: [10000;10001] -> 20000 (10000 is
+    retired and its directory reclaimed); segments 4, 5; round 3: the allocator is
+    seeded from the index labels {20000, 4, 5}, so [4;5] -> 10000 again.  Every guard
+    of the crash-free theorem holds, every batch is [batch_ok]; the name 10000 is
+    published twice with different content. *)
+Definition rb1 : batch := mkBatch 10000 [0; 1] [0].
+Definition rb2 : batch := mkBatch 10001 [2; 3] [0].
+Definition rb3 : batch := mkBatch 20000 [10000; 10001] [0].
+Definition rb4 : batch := mkBatch 10000 [4; 5] [0].
+Definition reuse1 : list clabel := seg1 0 ++ seg1 1 ++ seg1 2 ++ seg1 3 ++ whole rb1 [0; 1].
+Definition reuse2 : list clabel := whole rb2 [2; 3] ++ whole rb3 [10000; 10001].
+Definition reuse3 : list clabel := seg1 4 ++ seg1 5 ++ whole rb4 [4; 5].
+
+Lemma label_reuse_refuted :
+  exists c k l1 l2 l3 b i,
+    let s1 := crun (init c) l1 in
+    let s2 := crun (init c) (l1 ++ l2) in
+    let s3 := crun (init c) (l1 ++ l2 ++ l3) in
+    hist_ok (init c) (l1 ++ l2 ++ l3) = true /\ policy_ok k (init c) (l1 ++ l2 ++ l3) = true /\
+    In (CWrite b) l3 /\ b_out b = i /\ batch_ok (index (crun (init c) (l1 ++ l2 ++ seg1 4 ++ seg1 5))) k b = true /\
+    In i (live s1) /\ In i (index_labels (index s1)) /\ rows_of (dirs s1) i = [mkEv 0 0 0; mkEv 1 0 0] /\
+    ~ In i (live s2) /\ ~ In i (index_labels (index s2)) /\ ~ has_dir (dirs s2) i /\
+    index s2 = [(20000, [0])] /\
+    In i (live s3) /\ In i (index_labels (index s3)) /\ rows_of (dirs s3) i = [mkEv 4 0 0; mkEv 5 0 0].
+Proof.
+  exists 1, 2, reuse1, reuse2, reuse3, rb4, 10000. cbv zeta.
+  split; [vm_compute; reflexivity|]. split; [vm_compute; reflexivity|].
+  split; [unfold reuse3, whole; rewrite !in_app_iff; right; right; left; reflexivity|].
+  split; [reflexivity|]. split; [vm_compute; reflexivity|].
+  split; [apply memb_true_in; vm_compute; reflexivity|]. split; [apply memb_true_in; vm_compute; reflexivity|].
+  split; [vm_compute; reflexivity|].
+  split; [apply memb_false_notin; vm_compute; reflexivity|]. split; [apply memb_false_notin; vm_compute; reflexivity|].
+  split; [apply has_dirb_false_not; vm_compute; reflexivity|].
+  split; [vm_compute; reflexivity|].
+  split; [apply memb_true_in; vm_compute; reflexivity|]. split; [apply memb_true_in; vm_compute; reflexivity|].
+  vm_compute; reflexivity.
+Qed.
+
+(** Known finding CrashLeftoverDirectoryBecomesLive.  (a) capacity 1: crash right
+    after [FwMkdir], restart: the empty directory 0 is live and not in the index.
+    (b) capacity 2, types 0 and 1: crash after the files of type 0 were written:
+    directory 0 is live, holds one of the two rotated events and is not in the index. *)
+Definition leftover_a : list clabel :=
+  map CBase [LStore (mkEv 0 0 0); LFw FwBegin; LFw FwMkdir].
+Definition leftover_b : list clabel :=
+  map CBase [LStore (mkEv 0 0 0); LStore (mkEv 1 0 1); LWalWrite; LWalWrite;
+             LFw FwBegin; LFw FwMkdir; LFw (FwWrite 0)].
+
+Lemma crash_leftover_refuted :
+  (exists c pre, let s0 := crun (init c) pre in
+     let s := crun (init c) (pre ++ [CBase LCrash; CBase LRestart]) in
+     hist_ok (init c) pre = true /\ ~ In 0 (live s0) /\ ~ Complete s0 0 /\
+     jobs s0 = [mkJob 0 [mkEv 0 0 0] StBegun] /\
+     In 0 (live s) /\ index s = [] /\ dirs s = [mkSeg 0 []]) /\
+  (exists c pre, let s0 := crun (init c) pre in
+     let s := crun (init c) (pre ++ [CBase LCrash; CBase LRestart]) in
+     hist_ok (init c) pre = true /\ ~ In 0 (live s0) /\ ~ Complete s0 0 /\
+     jobs s0 = [mkJob 0 [mkEv 0 0 0; mkEv 1 0 1] StBegun] /\
+     In 0 (live s) /\ index s = [] /\ dirs s = [mkSeg 0 [mkEv 0 0 0]] /\
+     mem s = [mkEv 0 0 0; mkEv 1 0 1]).
+Proof.
+  split.
+  - exists 1, leftover_a. cbv zeta. split; [vm_compute; reflexivity|].
+    split; [apply memb_false_notin; vm_compute; reflexivity|].
+    split; [intros [_ H]; specialize (H (mkJob 0 [mkEv 0 0 0] StBegun)); vm_compute in H;
+            specialize (H (or_introl eq_refl) eq_refl); discriminate|].
+    split; [vm_compute; reflexivity|]. split; [apply memb_true_in; vm_compute; reflexivity|]. vm_conj.
+  - exists 2, leftover_b. cbv zeta. split; [vm_compute; reflexivity|].
+    split; [apply memb_false_notin; vm_compute; reflexivity|].
+    split; [intros [_ H]; specialize (H (mkJob 0 [mkEv 0 0 0; mkEv 1 0 1] StBegun)); vm_compute in H;
+            specialize (H (or_introl eq_refl) eq_refl); discriminate|].
+    split; [vm_compute; reflexivity|]. split; [apply memb_true_in; vm_compute; reflexivity|]. vm_conj.
+Qed.
+
+(** The guard of [CReclaim] (no queued flush job refers to the directory) is needed
+    in the model: a [batch_ok] batch that drains a segment whose flush job is between
+    [FwIndex] and [FwPublish], followed by [FwPublish], leaves a live id without a
+    directory.  (Model-level interleaving; not observed on the engine.) *)
+Definition race : list clabel :=
+  map CBase [LStore (mkEv 0 0 0); LFw FwBegin; LFw FwMkdir; LFw (FwWrite 0); LFw FwIndex]
+  ++ whole (mkBatch 10000 [0] [0]) [0] ++ [CBase (LFw FwPublish)].
+
+Example reclaim_guard_needed :
+  let s := crun (init 1) race in
+  policy_ok 2 (init 1) race = true /\ hist_ok (init 1) race = false /\
+  live s = [10000; 0] /\ map sid (dirs s) = [10000].
+Proof. cbv zeta. vm_conj. Qed.
+
+(** Non-vacuity: the history of the C05 example (three segments, two event types,
+    two batches) satisfies every guard; id 10000 is live from the end of the first
+    batch on, throughout the second batch. *)
+Example live_rows_immutable_example :
+  let pre := map CBase ls_3 ++ whole b_31 [1] in
+  let post := whole b_32 [0; 2] in
+  hist_ok (init 2) (pre ++ post) = true /\ policy_ok 2 (init 2) (pre ++ post) = true /\
+  (forall n, In 10000 (live (crun (init 2) (pre ++ firstn n post)))) /\
+  live (crun (init 2) pre) = [0; 2; 10000] /\ live (crun (init 2) (pre ++ post)) = [10000; 10001] /\
+  index (crun (init 2) (pre ++ post)) = [(10000, [0]); (10001, [1])] /\
+  rows_of (dirs (crun (init 2) (pre ++ post))) 10000 = [mkEv 0 0 0; mkEv 2 0 0; mkEv 3 1 0].
+Proof.
+  cbv zeta. split; [vm_compute; reflexivity|]. split; [vm_compute; reflexivity|].
+  split; [intros n; apply memb_true_in; destruct n as [|[|[|[|[|n]]]]]; vm_compute; reflexivity|].
+  vm_conj.
+Qed.
+
+(** a flush history with a queued and an in-flight job satisfies the guards *)
+Example guards_flush_example :
+  hist_ok (init 2) (map CBase ls_ex) = true /\
+  map jstage (jobs (crun (init 2) (map CBase ls_ex))) = [StBegun; StQueued] /\
+  live (crun (init 2) (map CBase ls_ex)) = [0].
+Proof. vm_conj. Qed.
